@@ -18,35 +18,35 @@ Qed.
 Definition fres_ok (text : str) (r : fres) : Prop :=
   match r with FRules _ => True | FErrors l => errs_ok text l | FPanic => False | FFuel => True end.
 
-Theorem frontend_total ex lr tg builtins fuel text forest :
-  shape_ok text forest = true -> fres_ok text (frontend (repaired ex lr tg) builtins fuel text forest).
+Theorem frontend_total st builtins fuel text forest :
+  shape_ok text forest = true -> fres_ok text (frontend (repaired st) builtins fuel text forest).
 Proof.
   intros SH. destruct (shape_ok_forest _ _ SH) as [M F]. unfold frontend.
-  change (fix_lr (repaired ex lr tg)) with lr. change (fix_tag (repaired ex lr tg)) with tg.
+  set (lr := fix_lr (repaired st)). set (tg := fix_tag (repaired st)).
   pose proof (validate_pairs_ok text builtins forest F) as V1.
   destruct (validate_pairs text builtins forest) as [u| | |]; cbn [out_ok fres_ok] in *; auto.
-  pose proof (consume_rules_good (repaired ex lr tg) text eq_refl eq_refl eq_refl fuel forest F) as C.
-  destruct (consume_rules_with_spans (repaired ex lr tg) text fuel forest) as [rules| | |]; cbn [out_ok fres_ok] in *; auto.
-  pose proof (validate_ast_ok text rules fuel lr tg C builtins (extras (repaired ex lr tg))) as V2.
-  destruct (validate_ast rules fuel lr tg builtins (extras (repaired ex lr tg))) as [errs n| |]; cbn [errs_v fres_ok] in *; auto.
+  pose proof (consume_rules_good (repaired st) text eq_refl eq_refl eq_refl fuel forest F) as C.
+  destruct (consume_rules_with_spans (repaired st) text fuel forest) as [rules| | |]; cbn [out_ok fres_ok] in *; auto.
+  pose proof (validate_ast_ok text rules fuel lr tg C builtins (extras (repaired st))) as V2.
+  destruct (validate_ast rules fuel lr tg builtins (extras (repaired st))) as [errs n| |]; cbn [errs_v fres_ok] in *; auto.
   destruct errs as [|e errs]; [|apply serrs_errs; exact V2].
-  pose proof (optimize_no_panic (extras (repaired ex lr tg)) (fix_unroll (repaired ex lr tg)) None fuel (map convert_rule rules) (or_introl eq_refl) (map convert_rule rules)) as O.
+  pose proof (optimize_no_panic (extras (repaired st)) (fix_unroll (repaired st)) None fuel (map convert_rule rules) (or_introl eq_refl) (map convert_rule rules)) as O.
   destruct (optimize _ _ fuel _ _); cbn; auto. apply O; [|reflexivity].
   apply Forall_map. eapply Forall_impl; [|exact C]. intros r [_ Hr]. cbn. eapply convert_nz; eauto.
 Qed.
 
-Corollary frontend_no_panic ex lr tg builtins fuel text forest :
-  shape_ok text forest = true -> frontend (repaired ex lr tg) builtins fuel text forest <> FPanic.
-Proof. intros SH E. pose proof (frontend_total ex lr tg builtins fuel text forest SH) as T. rewrite E in T. exact T. Qed.
+Corollary frontend_no_panic st builtins fuel text forest :
+  shape_ok text forest = true -> frontend (repaired st) builtins fuel text forest <> FPanic.
+Proof. intros SH E. pose proof (frontend_total st builtins fuel text forest SH) as T. rewrite E in T. exact T. Qed.
 
-Corollary frontend_located ex lr tg builtins fuel text forest l :
-  shape_ok text forest = true -> frontend (repaired ex lr tg) builtins fuel text forest = FErrors l ->
+Corollary frontend_located st builtins fuel text forest l :
+  shape_ok text forest = true -> frontend (repaired st) builtins fuel text forest = FErrors l ->
   forall e, In e l -> match snd e with
                       | LPos p => boundary text p
                       | LSpan a b => a <= b /\ boundary text a /\ boundary text b
                       end.
 Proof.
-  intros SH E e He. pose proof (frontend_total ex lr tg builtins fuel text forest SH) as T. rewrite E in T. cbn in T.
+  intros SH E e He. pose proof (frontend_total st builtins fuel text forest SH) as T. rewrite E in T. cbn in T.
   unfold errs_ok in T. rewrite Forall_forall in T. specialize (T e He). unfold loc_ok in T.
   destruct (snd e); [exact T|apply span_ok_facts; exact T].
 Qed.
@@ -78,28 +78,29 @@ Proof.
   destruct (tkids t); [discriminate|exact IH].
 Qed.
 
-Definition repaired_reader_only (ex lr tg : bool) : flags :=
-  {| extras := ex; fix_escape := true; fix_peek := true; fix_choice := true; fix_unroll := false; fix_lr := lr; fix_tag := tg |}.
+Definition repaired_reader_only (st : tree_state) : flags :=
+  {| extras := st_extras st; fix_escape := true; fix_peek := true; fix_choice := true; fix_unroll := false;
+     fix_lr := st_lr st; fix_tag := st_tag st; fix_insens := st_insens st |}.
 
-Theorem frontend_no_panic_bounded_counts ex lr tg builtins fuel text forest :
+Theorem frontend_no_panic_bounded_counts st builtins fuel text forest :
   shape_ok text forest = true ->
-  (forall rules, consume_rules_with_spans (repaired_reader_only ex lr tg) text fuel forest = ODone rules ->
+  (forall rules, consume_rules_with_spans (repaired_reader_only st) text fuel forest = ODone rules ->
                  Forall (fun r => counts_le 4294967293 (pbody r)) rules) ->
-  frontend (repaired_reader_only ex lr tg) builtins fuel text forest <> FPanic.
+  frontend (repaired_reader_only st) builtins fuel text forest <> FPanic.
 Proof.
   intros SH CB. destruct (shape_ok_forest _ _ SH) as [M F]. unfold frontend.
-  change (fix_lr (repaired_reader_only ex lr tg)) with lr. change (fix_tag (repaired_reader_only ex lr tg)) with tg.
+  set (lr := fix_lr (repaired_reader_only st)). set (tg := fix_tag (repaired_reader_only st)).
   pose proof (validate_pairs_ok text builtins forest F) as V1.
   destruct (validate_pairs text builtins forest) as [u| | |]; cbn [out_ok] in *; try discriminate; auto.
-  pose proof (consume_rules_good (repaired_reader_only ex lr tg) text eq_refl eq_refl eq_refl fuel forest F) as C.
-  destruct (consume_rules_with_spans (repaired_reader_only ex lr tg) text fuel forest) as [rules| | |]; cbn [out_ok] in *; try discriminate; auto.
+  pose proof (consume_rules_good (repaired_reader_only st) text eq_refl eq_refl eq_refl fuel forest F) as C.
+  destruct (consume_rules_with_spans (repaired_reader_only st) text fuel forest) as [rules| | |]; cbn [out_ok] in *; try discriminate; auto.
   specialize (CB rules eq_refl).
-  pose proof (validate_ast_ok text rules fuel lr tg C builtins (extras (repaired_reader_only ex lr tg))) as V2.
-  destruct (validate_ast rules fuel lr tg builtins (extras (repaired_reader_only ex lr tg))) as [errs n| |]; cbn [errs_v] in *; try discriminate; auto.
+  pose proof (validate_ast_ok text rules fuel lr tg C builtins (extras (repaired_reader_only st))) as V2.
+  destruct (validate_ast rules fuel lr tg builtins (extras (repaired_reader_only st))) as [errs n| |]; cbn [errs_v] in *; try discriminate; auto.
   destruct errs as [|e errs]; [|discriminate].
-  assert (BO : bound_ok (fix_unroll (repaired_reader_only ex lr tg)) (Some 4294967293%N)).
+  assert (BO : bound_ok (fix_unroll (repaired_reader_only st)) (Some 4294967293%N)).
   { right. exists 4294967293%N. split; [reflexivity|]. unfold u32_max. lia. }
-  pose proof (optimize_no_panic (extras (repaired_reader_only ex lr tg)) _ _ fuel (map convert_rule rules) BO (map convert_rule rules)) as O.
+  pose proof (optimize_no_panic (extras (repaired_reader_only st)) _ _ fuel (map convert_rule rules) BO (map convert_rule rules)) as O.
   destruct (optimize _ _ fuel _ _); try discriminate. exfalso. apply O; [|reflexivity].
   apply Forall_map. rewrite Forall_forall in C, CB. apply Forall_forall. intros r Hr. cbn.
   eapply convert_nz_bounded; [apply (C r Hr)|apply (CB r Hr)].
